@@ -183,7 +183,7 @@ class Batch:
                     if tok in by_name and tok not in seen:
                         seen.add(tok)
                         used.append(by_name[tok])
-            ok, failing, log = coqcases.run_cases(f'{name}{k}', 'Graph Reactor', [self.cases[i] for i in idx], extra='\n'.join(head + used), shard=len(idx))
+            ok, failing, log = coqcases.run_cases(f'{name}{k}', 'Graph Reactor ReactorStage', [self.cases[i] for i in idx], extra='\n'.join(head + used), shard=len(idx))
             return ok, [idx[j] for j in failing], log
         ok_all, failing, logs = True, [], []
         with cf.ThreadPoolExecutor(max_workers=4) as ex:
@@ -832,6 +832,153 @@ def corr_stage(ck):
 
 
 # ---------------------------------------------------------------------------------------------------------------------
+# correspondence 5: the loops around _patcher (coq/model/ReactorStage.v): Graph.union, Transformer.__call__,
+# Reactor._single_stage at molecule level, Reactor.__call__ (one_shot) with its de-duplication
+
+def nl(xs):
+    return lst([f'{int(x)}%nat' for x in xs])
+
+
+def merged_matches(rx, chosen):
+    """what the for-loop of _single_stage iterates: lazy_product of the get_mapping generators, dicts merged"""
+    from chython._functions import lazy_product
+    out = []
+    for match in lazy_product(*(x.get_mapping(y, automorphism_filter=rx._automorphism_filter) for x, y in zip(rx._patterns, chosen))):
+        mapping = match[0].copy()
+        for mm in match[1:]:
+            mapping.update(mm)
+        out.append(mapping)
+    return out
+
+
+def gen_list(gen, limit=None):
+    """values a generator yields and the exception that ends it"""
+    out = []
+    try:
+        for x in (gen if limit is None else itertools.islice(gen, limit)):
+            out.append(x)
+    except Exception as e:
+        return out, 'Some ' + exn(e)[4:]
+    return out, 'None'
+
+
+def corr_loops(ck):
+    from itertools import permutations
+    from chython import smiles, smarts
+    from chython.containers import ReactionContainer
+    from chython.reactor import Reactor
+    from chython.reactor.reactor import fix_mapping_overlap
+    rng = random.Random(f'{ck.seed}:c16loops')
+    quick = ck.tier == 'quick'
+    batch = Batch()
+    one = '(fun m => [m])'
+    # (a) Graph.union as reduce(or_, chosen): disjoint numbers (concatenation) and colliding numbers (remap branch)
+    for smis in [('CCO', 'NC'), ('CC(=O)O', 'NCC', 'O'), ('c1ccccc1', 'CC', 'C'), ('C',), ('CO', 'CO', 'CO')] + [tuple(rng.sample(DECORATED + BRIDGED, rng.randint(1, 3))) for _ in range(10 if quick else 100)]:
+        for fixed in (True, False):
+            ms = [smiles(x) for x in smis]
+            if rng.random() < .5:
+                ms = [sparse_renumber(m, rng) for m in ms]
+            if fixed:
+                ms = fix_mapping_overlap(ms)
+            try:
+                res = 'Ok ' + coqmol.mol_term(reduce(or_, ms))
+            except Exception as e:
+                res = exn(e)
+            batch.add(f'union_res_eqb (union_all {lst([batch.define("m", coqmol.mol_term(m)) for m in ms])}) ({res})', {'kind': 'union', 'smiles': smis, 'disjoint': fixed})
+            ck.count('loops:union:' + ('disjoint' if fixed else 'as given (colliding numbers)'))
+            ck.case(('union', smis, fixed, tuple(tuple(m) for m in ms)), nontrivial=len(ms) > 1)
+    # (b) Transformer.__call__ = the patcher over the match list
+    pool = ['CCO', 'CC(=O)OCC', 'NCCO', 'C1N2CC1C2', 'C1N(F)N(C1)Cl', 'OCC(O)CO', 'CCOCC', 'CC#N', 'N#CCC#N', 'C[N+](C)(C)CC(=O)[O-]', 'ClCCCl'] + \
+        corpus.sample(corpus.lipo(), 6 if quick else 60, ck.seed, 'c16loops')
+    for pat, rep, what in SYNTHETIC:
+        t = make_template(pat, rep, fix_aromatic_rings=False)
+        for smi in pool:
+            try:
+                m = smiles(smi)
+            except Exception:
+                continue
+            matches = [dict(x) for x in t._pattern.get_mapping(m, automorphism_filter=t._automorphism_filter)]
+            if not matches:
+                continue
+            prods, e = gen_list(t(m))
+            batch.add(f'mols_gen_eqb (transformer_call {zl(sorted(t._to_delete))} {batch.define("t", tpl_term(t._replacement))} {lst([pairs(x) for x in matches])} '
+                      f'{batch.define("m", coqmol.mol_term(m))}) ({lst([coqmol.mol_term(x) for x in prods])}, {e})',
+                      {'kind': 'Transformer.__call__', 'template': f'{pat}>>{rep}', 'smiles': smi, 'matches': len(matches)})
+            ck.count('loops:transformer-call:' + ('raises' if e != 'None' else f'{min(len(matches), 3)}{"+" if len(matches) > 3 else ""} matches'))
+            ck.case(('tcall', pat, rep, smi), nontrivial=len(matches) > 1)
+    # (c) Reactor._single_stage at molecule level and (d) Reactor.__call__ one_shot
+    for pats, prods_t, rsets in STAGE_TEMPLATES:
+        rx = Reactor(tuple(smarts(x) for x in pats), tuple(smarts(x) for x in prods_t), fix_aromatic_rings=False, automorphism_filter=False)
+        split = len(rx._products_atoms) > 1
+        to_del = zl(sorted(rx._to_delete))
+        tpl = batch.define('t', tpl_term(rx._replacement))
+        for rs, variant in itertools.product(rsets, range(3 if quick else 12)):
+            ms = [smiles(x) for x in rs]
+            if variant:
+                ms = [corpus.renumber(m, rng) if variant % 2 else sparse_renumber(m, rng) for m in ms]
+            structures = fix_mapping_overlap(ms)
+            names = [batch.define('m', coqmol.mol_term(m)) for m in structures]
+            idx = list(range(len(structures)))
+            mtable, ctable, cands = [], [], []
+            for chosen_i in permutations(idx, len(pats)):
+                chosen = [structures[i] for i in chosen_i]
+                ign = [structures[i] for i in idx if i not in chosen_i]
+                ignored = {x for m in ign for x in m}
+                matches = merged_matches(rx, chosen)
+                mtable.append(tup(nl(chosen_i), lst([pairs(x) for x in matches])))
+                if not matches:
+                    continue
+                united = reduce(or_, chosen)
+                for mp in matches:      # the iteration order of each `collision` set, rebuilt by the very expression the method uses
+                    new0 = rx._patcher(united, dict(mp))
+                    col = set(new0).intersection(ignored)
+                    if len(col) > 1:
+                        ctable.append(tup(zl([x for x in new0 if x in ignored]), zl(list(col))))
+                outs, e = gen_list(rx._single_stage(chosen, ignored))
+                real = [x[0] if len(x) == 1 else reduce(or_, x) for x in outs]
+                if len(cands) < 400:
+                    batch.add(f'stage_mols_eqb {b(not split)} (single_stage {to_del} {tpl} (ztable_get {lst(ctable)}) {one} {lst([pairs(x) for x in matches])} '
+                              f'{lst([names[i] for i in chosen_i])} {zl(sorted(ignored))}) ({lst([coqmol.mol_term(x) for x in real])}, {e})',
+                              {'kind': '_single_stage', 'patterns': pats, 'products': prods_t, 'reactants': rs, 'chosen': chosen_i, 'matches': len(matches)})
+                    ck.count('loops:single-stage:' + ('split' if split else 'one product') + (':collision' if any(set(x) & ignored for x in [rx._patcher(united, dict(mp)) for mp in matches[:1]]) else ''))
+                    ck.case(('sstage', pats, rs, chosen_i), nontrivial=True)
+                for k, new in enumerate(outs):
+                    r = ReactionContainer([x.copy() for x in chosen] + [x.copy() for x in ign], list(new) + [x.copy() for x in ign])
+                    if len(new) > 1:
+                        r.contract_ions()
+                    cands.append((chosen_i, k, str(r)))
+            # the real call, its yields identified with the first candidate of the same string
+            real_r, e = gen_list(rx(*structures))
+            keys = {}
+            ktable = lst([tup(nl(list(c) + [k]), zraw(keys.setdefault(st, len(keys)))) for c, k, st in cands])
+            first = {}
+            for c, k, st in cands:
+                first.setdefault(st, (c, k))
+            sigs = []
+            for r in real_r:
+                c, k = first.get(str(r), ((), 999))
+                sigs.append(tup(tup(nl(c), f'{k}%nat'), zl(sorted(x for p in r.products for x in p))))
+            batch.add(f'call_eqb (one_shot {to_del} {tpl} (fun c => table_get {lst(mtable)} c []) (ztable_get {lst(ctable)}) {one} Z Z.eqb '
+                      f'(fun c => table_get {ktable} (c_chosen c ++ [c_match c]) (-1)) {lst(names)} {len(pats)}%nat) ({lst(sigs)}, {e})',
+                      {'kind': 'Reactor.__call__ one_shot', 'patterns': pats, 'products': prods_t, 'reactants': rs, 'candidates': len(cands), 'yielded': len(real_r)})
+            ck.count('loops:one-shot:' + ('duplicates removed' if len(real_r) < len(cands) else 'all candidates distinct'))
+            ck.case(('oneshot', pats, rs), nontrivial=len(cands) > 0)
+            # read-out independent of the model: yields = first occurrences of the candidate strings, in order
+            want = list(dict.fromkeys(st for _, _, st in cands))
+            if [str(r) for r in real_r] != want and e == 'None':
+                ck.counterexample(f'one-shot-yields:{pats}:{rs}', 'Reactor.__call__ does not yield exactly one reaction per distinct candidate string, in first-occurrence order',
+                                  {'patterns': pats, 'products': prods_t, 'reactants': rs}, [str(r) for r in real_r], want, 'candidates rebuilt from _single_stage')
+    ok, failing, log = batch.run('c16lp', chunk=40)
+    ck.oblige('correspondence: Graph.union, Transformer.__call__, Reactor._single_stage (molecules after the collision remap) and Reactor.__call__ one_shot '
+              '(which candidate is yielded, in which order, with which atom numbers) == Coq ReactorStage', ok and not failing, 'correspondence',
+              log or str([batch.meta[i] for i in failing[:5]]))
+    ck.extra['loops_cases'] = len(batch.cases)
+    if not ok or failing:
+        ck.unchecked('correspondence ReactorStage vs chython/reactor/reactor.py + transformer.py + containers/graph.py:union', log[-1500:], [repr(batch.meta[i]) for i in failing[:20]])
+    return ok and not failing
+
+
+# ---------------------------------------------------------------------------------------------------------------------
 # search: property-level oracles on the real code, independent of the model
 
 def search_deleted_exhaustive(ck):
@@ -1048,6 +1195,55 @@ def search_templates(ck):
                 ck.counterexample(f'renumbering:{tname}:{smi}', 'product set depends on the atom numbering of the reactant',
                                   {'smiles': smi, 'template': tname, 'numbering': list(m2._atoms)}, c, a, 'same molecule renumbered')
     ck.extra['products_checked'] = n_prod
+
+
+def search_equivariance(ck, batch=None):
+    """_patcher on a renumbered structure under the renumbered match == the renumbered product, dict orders included, with the
+    k-th new atom mx+k -> mx'+k (the statement of C16_patcher_equivariant, checked on the REAL code; independent of the model)"""
+    from chython import smiles
+    rng = random.Random(f'{ck.seed}:c16eq')
+    quick = ck.tier == 'quick'
+    pool = ['CCO', 'CC(=O)OCC', 'NCCO', 'C1N2CC1C2', 'C1N(F)N(C1)Cl', 'OCC(O)CO', 'CC#N', 'C[N+](C)(C)CC(=O)[O-]', 'ClCCCl', 'Brc1ccc(O)cc1', 'C[C@H](N)C(=O)O'] + \
+        corpus.sample(corpus.lipo(), 15 if quick else 150, ck.seed, 'c16eq')
+    n = 0
+    for pat, rep, what in SYNTHETIC:
+        if '[A:9]' in rep:
+            continue
+        t = make_template(pat, rep, fix_aromatic_rings=False)
+        for smi in pool:
+            try:
+                m = smiles(smi)
+            except Exception:
+                continue
+            for mp in itertools.islice(t._pattern.get_mapping(m, automorphism_filter=False), 2):
+                nums = list(m._atoms)
+                new = rng.sample(range(1, 3 * len(nums) + 6), len(nums))
+                sig = dict(zip(nums, new))
+                m2 = m.copy()
+                m2.remap({k: v + 10 ** 6 for k, v in sig.items()})
+                m2.remap({v + 10 ** 6: v for v in sig.values()})
+                mx, mx2 = max(nums), max(new)
+                ext = lambda x: sig[x] if x <= mx else x - mx + mx2
+                mp1, mp2 = dict(mp), {k: sig[v] for k, v in mp.items()}
+                try:
+                    p1, p2 = t._patcher(m, mp1), t._patcher(m2, mp2)
+                except Exception:
+                    continue
+                n += 1
+                ck.case(('equivariance', pat, rep, smi, tuple(sorted(mp.items())), tuple(new)), nontrivial=True)
+                s1 = ([(ext(k), a.atomic_number, a.isotope, a.charge, a.is_radical, a.implicit_hydrogens) for k, a in p1._atoms.items()],
+                      [(ext(k), [(ext(j), int(bd)) for j, bd in nb.items()]) for k, nb in p1._bonds.items()], {k: ext(v) for k, v in mp1.items()})
+                s2 = ([(k, a.atomic_number, a.isotope, a.charge, a.is_radical, a.implicit_hydrogens) for k, a in p2._atoms.items()],
+                      [(k, [(j, int(bd)) for j, bd in nb.items()]) for k, nb in p2._bonds.items()], mp2)
+                if s1 != s2:
+                    ck.counterexample(f'patcher-equivariance:{pat}>>{rep}:{smi}:{sorted(mp.items())}', '_patcher of the renumbered structure is not the renumbered product',
+                                      {'smiles': smi, 'template': f'{pat}>>{rep}', 'match': dict(mp), 'renumbering': sig}, repr(s2)[:600], repr(s1)[:600],
+                                      'the same call on the structure before renumbering, renumbered afterwards')
+                if batch is not None and n % 7 == 0:
+                    table = lst([tup(zraw(k), zraw(v)) for k, v in sig.items()])
+                    batch.add(f'mol_struct_eqb (rename_mol (mget {table}) {batch.define("m", coqmol.mol_term(m))}) {coqmol.mol_term(m2)}', {'kind': 'Graph.remap == rename_mol', 'smiles': smi, 'renumbering': sig})
+    ck.count('search:patcher-equivariance (real code, exact dict order)', n)
+    ck.extra['equivariance_products_checked'] = n
 
 
 def search_identity(ck):
@@ -1287,9 +1483,11 @@ def run(ck):
     tied = timed('corr patcher', corr_patcher) and tied
     tied = timed('corr overlap', corr_overlap) and tied
     tied = timed('corr single_stage remap', corr_stage) and tied
+    tied = timed('corr loops', corr_loops) and tied
     timed('search get_deleted 5-atom graphs', search_deleted_exhaustive)
     timed('search templates', search_templates)
     timed('search identity', search_identity)
+    timed('search equivariance', search_equivariance)
     timed('search reactor', search_reactor)
     timed('search reactor synthetic', search_reactor_synthetic)
     ck.extra['step_seconds'] = steps
